@@ -184,6 +184,37 @@ def run_workload(blocks, A):
     return out
 
 
+_KEEP_ALIVE = []  # suspended generators of finished threads (never finalised while checks are running)
+
+
+def _dead_thread_prelude(forms, A):
+    """Threads that END while one of their contexts is still open: a generator suspended at a `yield` inside `with jaxtyped("context")`
+    that stays alive (a prefetching pipeline), or a context entered by hand.  Their bindings die with them; threads started
+    afterwards (which the OS may give the same identifiers) are fresh."""
+    import threading
+
+    for form, size_ in forms:
+        def producer():
+            with jaxtyped("context"):
+                assert isinstance(np.zeros((size_,)), A.ANN["a"]) and isinstance(np.zeros((size_, size_ + 1)), A.ANN2)
+                yield "batch"
+
+        def body():
+            if form == "generator":
+                g = producer()
+                next(g)
+                _KEEP_ALIVE.append(g)
+            else:
+                cm = jaxtyped("context")
+                cm.__enter__()
+                assert isinstance(np.zeros((size_,)), A.ANN["a"])
+                _KEEP_ALIVE.append(cm)
+
+        th = threading.Thread(target=body)
+        th.start()
+        th.join()
+
+
 def check_case(ctx, case):
     global SHARED
     obs.reset_state()
@@ -205,6 +236,8 @@ def check_case(ctx, case):
         _fresh_counter[0] += 1
         A = AnnSet(_fresh_counter[0])
     fns = [(lambda w=w: run_workload(w, A)) for w in workloads]
+    if case.get("dead_threads"):
+        _dead_thread_prelude(case["dead_threads"], SHARED)
     if case.get("parent_context"):
         # the spawning (main) thread is itself inside a context with bindings; the workers run in copies of its
         # contextvars context; they must behave as alone, and the parent's bindings must be untouched afterwards
@@ -233,7 +266,7 @@ def check_case(ctx, case):
         raise Violation("main-thread-state", case, "after the threads finished, the main thread sees bindings or a leaf label")
     ctx.extra["context_switches"] = ctx.extra.get("context_switches", 0) + len(s.switches)
     ctx.extra["switches_inside_check"] = ctx.extra.get("switches_inside_check", 0) + inside
-    ctx.note(case, inside >= 2, classes=(["fresh-annotations"] if case.get("fresh") else []) + (["instruction-level-in-storage"] if case.get("instructions") else []) + [f"threads-{len(workloads)}", f"quantum-{case['quantum']}", f"switches-{min(len(s.switches) // 50, 10) * 50}+", f"inside-{min(inside // 20, 10) * 20}+"],
+    ctx.note(case, inside >= 2, classes=(["after-threads-that-ended-inside-a-context"] if case.get("dead_threads") else []) + (["fresh-annotations"] if case.get("fresh") else []) + (["instruction-level-in-storage"] if case.get("instructions") else []) + [f"threads-{len(workloads)}", f"quantum-{case['quantum']}", f"switches-{min(len(s.switches) // 50, 10) * 50}+", f"inside-{min(inside // 20, 10) * 20}+"],
              sample={"workloads": workloads, "segments": case["segments"], "quantum": case["quantum"], "switches": len(s.switches), "switches_inside_a_check": inside})
 
 
@@ -274,6 +307,7 @@ case_st = st.fixed_dictionaries({
     "parent_context": st.sampled_from([False, False, True]),
     "fresh": st.sampled_from([False, True, False]),
     "instructions": st.sampled_from([True, False]),
+    "dead_threads": st.one_of(st.just([]), st.just([]), st.lists(st.tuples(st.sampled_from(["generator", "enter"]), st.sampled_from([5, 6, 7])), min_size=1, max_size=3)),
 })
 
 
@@ -285,7 +319,8 @@ def run(ctx):
     @given(case_st)
     def cases(case):
         check_case(ctx, {"workloads": to_lists(case["workloads"]), "segments": to_lists(case["segments"]), "quantum": case["quantum"],
-                         "parent_context": case["parent_context"], "fresh": case["fresh"], "instructions": case["instructions"]})
+                         "parent_context": case["parent_context"], "fresh": case["fresh"], "instructions": case["instructions"],
+                         "dead_threads": to_lists(case["dead_threads"])})
 
     ctx.hyp(cases, max_examples=ctx.n(60, 600))
 
